@@ -180,7 +180,8 @@ func (app *SettlusApp) prepForZeroHeightGenesis(ctx sdk.Context, jailAllowedAddr
 	counter := int16(0)
 
 	for ; iter.Valid(); iter.Next() {
-		addr := sdk.ValAddress(iter.Key()[1:])
+		// the key is the store prefix, a length byte and the address
+		addr := sdk.ValAddress(stakingtypes.AddressFromValidatorsKey(iter.Key()))
 		validator, found := app.StakingKeeper.GetValidator(ctx, addr)
 		if !found {
 			return fmt.Errorf("expected validator %s not found", addr)
